@@ -1,6 +1,6 @@
 #!/bin/sh
 # usage: tools/try_seeded.sh <seeded-dir> <property>...   -- applies <dir>/patch.diff to /repo, runs the checks, reverts
-export GOFLAGS=-mod=mod GOPROXY=off GOSUMDB=off GOTOOLCHAIN=local
+export GOFLAGS=-mod=mod GOPROXY=off GOSUMDB=off GOTOOLCHAIN=local GOVC_NO_EVIDENCE=1
 d=$(cd "$1" && pwd); shift
 cd /verif
 if [ -n "$(git -C /repo status --short | grep -v '^??')" ]; then echo "/repo has uncommitted changes; commit first"; exit 3; fi
